@@ -214,6 +214,9 @@ func checkC02(P *Prog, r *Result) {
 	// an issue object belongs to one report: an issue released to the pool twice is handed to two later
 	// violations, one of which then shows the other's code and path (C07's release-multiplicity rule)
 	shareRule(P, r, checkC07, "C07/release-multiplicity", nil, "C02/issue-object-unique", 1)
+	// no spurious issue: a typed nil record is an empty record (each required field reports), not one coerce
+	// issue at the struct node that hides them (C04's nil-record rule)
+	shareRule(P, r, checkC04, "C04/nil-record-absent", nil, "C02/nil-record-not-a-coerce-issue", 1)
 	// ---- nil-iff-empty ----
 	P.checkNilIffEmpty(r)
 	// ---- a failure is never swallowed by a flag left behind, nor suppressed by an unrelated earlier issue ----
